@@ -290,9 +290,10 @@ static Script gen(Rng& r, int size)
 {
     Script s;
     bool cb = r.chance(2, 3);
-    int nthreads = 1 + r.below(3);
+    bool single = r.chance(1, 6);
+    int nthreads = single ? 1 : 1 + r.below(3);
     int nshared = r.below(3);
-    s.config = std::string("l:") + (cb ? "1" : "0") + ":" + std::to_string(nshared);
+    s.config = std::string(single ? "s:" : "l:") + (cb ? "1" : "0") + ":" + std::to_string(nshared);
     const char* xs = "pppppasd";
     const char* ys = "ppppasdrt";
     for (int t = 1; t <= nthreads; ++t) {
@@ -371,6 +372,12 @@ int main(int argc, char** argv)
         // objects still owned when the container dies; destructor retry loop
         parse("l:1:0;n1pp,a1,n2pp,m2;n21pp,a21,a21"),
         parse("l:0:1;a0;a0,x0"),
+        // the single-thread class (same code without the lock)
+        parse("s:1:0;n1pp,m1,s,d,s"),
+        parse("s:1:1;n1ap,n2pd,n4pr,n5sa,a0,m1,m2,m4,m5,d,d,g100,s,x0,g3,d"),
+        parse("s:1:0;n1pp,n2pt,n3pp,m1,m2,m3,d,s,d"),
+        parse("s:0:0;n1pp,a1,g3,x1,g100,n2dp,m2,d,s"),
+        parse("s:0:0;n1pp,a1,a1,n2pp,a2"),
     };
     return client_main(argc, argv, directed, gen, exec);
 }
